@@ -38,6 +38,8 @@ def body():
         "block (i,j) is identity + 0.3 single layer when domain_j and dual_i have the same dimension and 0.05 single layer otherwise; "
         "configurations whose dual (resp. range) dimensions are not a permutation of the domain dimensions cannot be made well conditioned "
         "this way and are counted, not replayed",
+        "cg is judged only when the system matrix handed to it (weak form, or strong form M^-1 A) is symmetric positive definite, the premise of the property; "
+        "the strong form is symmetric for DP0 on the unit cube (M a multiple of the identity), which realises dimension 3 for cg / strong form",
         "SciPy's gmres uses legacy callbacks: one call per inner iteration with the relative preconditioned residual",
     )
     quick = chk.tier == "quick"
@@ -57,6 +59,10 @@ def body():
     E = (np.array([[1, 4, 2], [1, 3, 4], [5, 6, 7], [6, 8, 7], [1, 2, 5], [2, 6, 5], [3, 8, 4], [3, 7, 8], [1, 7, 3], [1, 5, 7], [2, 4, 6], [4, 8, 6]]) - 1).T
     g = api.Grid(V, E)
     sp = {2: api.function_space(g, "P", 1), 3: api.function_space(g, "DP", 0), 5: api.function_space(g, "DP", 1)}
+    # cg needs a symmetric positive definite system matrix; the strong form M^-1 A of a symmetric weak form is symmetric only when M is a
+    # multiple of the identity: DP0 on the unit cube (12 congruent elements) realises dimension 3 for the cg / strong-form configurations
+    g_cube = api.Grid(V / np.array([[1.0], [2.0], [3.0]]), E)
+    sp_cube = {3: api.function_space(g_cube, "DP", 0)}
     lap = api.operators.boundary.laplace
     ident = api.operators.boundary.sparse.identity
     cache = {}
@@ -103,11 +109,12 @@ def body():
                     truth = np.concatenate([f.coefficients for f in fs])
                     Wd = A.weak_form().to_dense()
                 else:
+                    spx = sp_cube if (c["solver"] == "cg" and c["strong"] and dom == [3] and ran == [3] and dua == [3]) else sp
                     if c["solver"] == "cg":
-                        A = lap.single_layer(sp[dom[0]], sp[ran[0]], sp[dua[0]])
+                        A = lap.single_layer(spx[dom[0]], spx[ran[0]], spx[dua[0]])
                     else:
                         A = block(dom[0], ran[0], dua[0], cplx)
-                    f0 = api.GridFunction(sp[dom[0]], coefficients=rng.randint(-3, 4, sp[dom[0]].global_dof_count).astype(float) + (1j * rng.randint(-3, 4, sp[dom[0]].global_dof_count) if cplx else 0))
+                    f0 = api.GridFunction(spx[dom[0]], coefficients=rng.randint(-3, 4, sp[dom[0]].global_dof_count).astype(float) + (1j * rng.randint(-3, 4, sp[dom[0]].global_dof_count) if cplx else 0))
                     fs = [f0]
                     b = A * f0
                     truth = f0.coefficients
@@ -117,6 +124,11 @@ def body():
                     chk.part("ill_conditioned_skipped", n=1)
                     continue
                 bvec_weak = Wd.dot(truth)
+                if c["solver"] == "cg":
+                    Sys = np.asarray(A.strong_form().to_dense()) if c["strong"] else np.asarray(Wd)
+                    if np.abs(Sys - Sys.T).max() > 1e-10 * np.abs(Sys).max() or np.linalg.eigvalsh((Sys + Sys.T) / 2).min() <= 0:
+                        chk.part("cg_premise_not_met", n=1)     # the system matrix handed to cg is not symmetric positive definite: not judged
+                        continue
 
                 def unpack(sol):
                     sols = sol if isinstance(sol, (list, tuple)) else [sol]
@@ -124,7 +136,7 @@ def body():
                         fail("solution_layout", "%d solution functions for %d block columns" % (len(sols), cols))
                         return None
                     for k, s in enumerate(sols):
-                        if s.space != sp[dom[k]]:
+                        if s.space != (spx if not c["blocked"] else sp)[dom[k]]:
                             fail("solution_space", "solution %d does not live in the domain space of column %d" % (k, k))
                             return None
                     return np.concatenate([s.coefficients for s in sols])
@@ -190,6 +202,76 @@ def body():
                 fail("exception", "%s: %s" % (type(exc).__name__, str(exc)[:200]))
         if len(chk.cov["samples"]) < 3:
             chk.sample(ob)
+    # ---- directed cases -------------------------------------------------------------------------------------------------------
+    # (a) restart / maxiter are handed to SciPy as given: the library's outputs equal those of scipy.sparse.linalg.gmres on the same
+    #     discrete system with the same settings (iteration count, info, solution), single and blocked
+    import scipy.sparse.linalg
+
+    class Counter(object):
+        def __init__(self):
+            self.n = 0
+
+        def __call__(self, x):
+            self.n += 1
+
+    for blocked in (False, True):
+        try:
+            if blocked:
+                A = api.BlockedOperator(2, 2)
+                A[0, 0], A[0, 1], A[1, 0], A[1, 1] = block(2, 2, 2, False), block(3, 2, 2, False), block(2, 3, 3, False), block(3, 3, 3, False)
+                fs = [api.GridFunction(sp[d], coefficients=rng.randint(-3, 4, sp[d].global_dof_count).astype(float)) for d in (2, 3)]
+                b = A * fs
+                from bempp_cl.api.assembly.blocked_operator import projections_from_grid_functions_list
+
+                bvec = projections_from_grid_functions_list(b, A.dual_to_range_spaces)
+            else:
+                A = block(5, 5, 5, False)
+                f0 = api.GridFunction(sp[5], coefficients=rng.randint(-3, 4, sp[5].global_dof_count).astype(float))
+                b = A * f0
+                bvec = b.projections(sp[5])
+            W = A.weak_form()
+            for restart, maxiter in ((3, 200), (200, 3), (2, 2), (5, None), (None, 4)):
+                label = "gmres %s restart=%s maxiter=%s" % ("blocked 2x2" if blocked else "single", restart, maxiter)
+                chk.count(label, True)
+                cb = Counter()
+                xs, infos = scipy.sparse.linalg.gmres(W, bvec, rtol=1e-9, restart=restart, maxiter=maxiter, callback=cb)
+                sol, info, res_, cnt = api.gmres(A, b, tol=1e-9, restart=restart, maxiter=maxiter, return_residuals=True, return_iteration_count=True)
+                x = np.concatenate([f.coefficients for f in sol]) if blocked else sol.coefficients
+                if info != infos or cnt != cb.n or len(res_) != cnt:
+                    chk.violation("gmres:%s:settings" % ("blocked" if blocked else "single"), "%s: info %s after %d iterations (%d residuals), SciPy with the same settings on the same system: info %s after %d iterations" % (
+                        label, info, cnt, len(res_), infos, cb.n), {"restart": restart, "maxiter": maxiter, "blocked": blocked})
+                elif np.abs(x - xs).max() > 1e-12 * max(1.0, np.abs(xs).max()):
+                    chk.violation("gmres:%s:settings" % ("blocked" if blocked else "single"), "%s: solution differs from SciPy's on the same system by %.3g" % (label, np.abs(x - xs).max()), {"restart": restart, "maxiter": maxiter})
+        except Exception as exc:
+            chk.violation("gmres:settings:exception", "%s: %s" % (type(exc).__name__, str(exc)[:200]), {"blocked": blocked})
+    # (b) blocked systems whose domain spaces include dual-grid spaces (global dof count differs from the dof count on the barycentric grid)
+    try:
+        d0 = api.function_space(g, "DUAL", 0)
+        p1 = sp[2]
+        for order in ((d0, p1), (p1, d0)):
+            s0, s1 = order
+            du0, du1 = (p1, d0) if s0 is d0 else (d0, p1)
+            A = api.BlockedOperator(2, 2)
+            A[0, 0], A[0, 1] = ident(s0, s0, du0), 0.1 * ident(s1, s0, du0)
+            A[1, 0], A[1, 1] = 0.1 * ident(s0, s1, du1), ident(s1, s1, du1)
+            for cplx in (False, True):
+                fs = [api.GridFunction(s_, coefficients=rng.randint(-3, 4, s_.global_dof_count).astype(float) + (1j * rng.randint(-3, 4, s_.global_dof_count) if cplx else 0)) for s_ in order]
+                truth = np.concatenate([f.coefficients for f in fs])
+                b = A * fs
+                for name, solve in (("lu", lambda: api.lu(A, b)), ("lu_factors", lambda: api.lu(A, b, lu_factor=api.compute_lu_factors(A))),
+                                    ("gmres weak", lambda: api.gmres(A, b, tol=1e-12)[0]), ("gmres strong", lambda: api.gmres(A, b, tol=1e-12, use_strong_form=True)[0])):
+                    label = "%s blocked 2x2 on (%s, %s)%s" % (name, "DUAL0" if s0 is d0 else "P1", "P1" if s0 is d0 else "DUAL0", " complex" if cplx else "")
+                    chk.count(label, True)
+                    sol = solve()
+                    if len(sol) != 2 or sol[0].space != s0 or sol[1].space != s1 or any(len(f.coefficients) != f.space.global_dof_count for f in sol):
+                        chk.violation("dual_spaces:layout", "%s: solution functions do not have the layout of the domain spaces (coefficient lengths %s for %s dofs)" % (
+                            label, [len(f.coefficients) for f in sol], [s_.global_dof_count for s_ in order]), {})
+                        continue
+                    e_ = np.abs(np.concatenate([f.coefficients for f in sol]) - truth).max()
+                    if e_ > 1e-8 * max(1.0, np.abs(truth).max()):
+                        chk.violation("dual_spaces:accuracy", "%s: solution differs from f by %.3g" % (label, e_), {})
+    except Exception as exc:
+        chk.violation("dual_spaces:exception", "%s: %s" % (type(exc).__name__, str(exc)[:200]), {})
     chk.cov["rule"] = "one obligation per terminal state of Solvers (solver x block shape x dimensions x form x return flags) realisable as a well-conditioned system, times tolerance/restart/maxiter variants"
     chk.cov["unrealisable_configurations"] = skipped
     return chk.finish()
